@@ -222,7 +222,7 @@ func execA(history string) string {
 }
 
 var partA = ev.NewCheck("C17", "testdrv-histories",
-	"exhaustive: all histories of length 1..L over {in.Open, in.Close, out.Open, out.Close, in.Listen, midi.ListenTo, stop (of the latest listener, also twice), out.Send(unique message), midi.SendTo+send} on a fresh testdrv pair, pruned to protocol-respecting ones (Listen needs an open port and no active listener, Close of the in-port needs no active listener); quick L=6, thorough L=8; oracle = lifecycle model (inOpen, outOpen, active listener) checked after EVERY step: return values (nil / ErrPortClosed), IsOpen, exactly-once in-order delivery to the active listener only, nothing to stopped listeners, no panic, history returns within a 5 s watchdog; non-trivial = a Stop followed by a new Listen with a send in each phase; histories distinct by construction",
+	"exhaustive: all histories of length 1..L over {in.Open, in.Close, out.Open, out.Close, in.Listen, midi.ListenTo, stop (of the latest listener, also twice), out.Send(unique message), midi.SendTo+send} on a fresh testdrv pair, pruned to protocol-respecting ones (Listen needs an open port and no active listener, Close of the in-port needs no active listener); quick L=6, thorough L=9; oracle = lifecycle model (inOpen, outOpen, active listener) checked after EVERY step: return values (nil / ErrPortClosed), IsOpen, exactly-once in-order delivery to the active listener only, nothing to stopped listeners, no panic, history returns within a 5 s watchdog; non-trivial = a Stop followed by a new Listen with a send in each phase; histories distinct by construction",
 	nil, runA)
 
 func TestEnumTestdrvHistories(t *testing.T) {
@@ -230,7 +230,7 @@ func TestEnumTestdrvHistories(t *testing.T) {
 		t.Skip("part A runs in the normal binary")
 	}
 	partA.R.Exhaustive = true
-	L := ev.N(6, 8)
+	L := ev.N(6, 9)
 	var n, nt int64
 	failed := false
 	var rec func(prefix []byte, m modelA)
@@ -300,7 +300,7 @@ func TestPropTestdrvLongHistories(t *testing.T) {
 	if raceMode() {
 		t.Skip("part A runs in the normal binary")
 	}
-	partARandom.Rapid(t, 500, 5000)
+	partARandom.Rapid(t, 500, 50000)
 }
 
 func TestReplay(t *testing.T) {
